@@ -5,6 +5,7 @@ import (
 	"bufio"
 	"bytes"
 	"context"
+	"encoding/json"
 	"errors"
 	"fmt"
 	"io"
@@ -16,6 +17,7 @@ import (
 	"sort"
 	"strings"
 	"sync"
+	"sync/atomic"
 	"testing"
 	"time"
 
@@ -82,9 +84,15 @@ type respScript struct {
 	behind string
 	// early: number of 103 Early Hints responses the backend sends before the final one
 	early int
+	// connHeader: the client's Connection request header (list syntax allows empty elements and
+	// tab or space padding); "" = none
+	connHeader string
 	// trailers: fields the backend sends after the last chunk of a chunked body (announced in Trailer)
 	trailers [][2]string
 }
+
+// exchangeStalled: an exchange that never terminated was seen in this process.
+var exchangeStalled atomic.Bool
 
 var faults = []string{"refused", "dial-error-without-address", "name-not-resolved", "close-before", "rst-before", "partial-head", "garbage-head", "invalid-status", "body-close", "body-rst", "never-answer", "client-cancel"}
 
@@ -103,6 +111,7 @@ func genResp(t *rapid.T) *respScript {
 	// the forwarder may sit behind another oxy middleware that wraps the response writer, and
 	// the backend may send informational responses before the final one
 	s.behind = rapid.SampledFrom([]string{"", "", "", "trace", "cbreaker", "stream-verbose", "buffer-verbose", "roundrobin-verbose", "cbreaker-verbose"}).Draw(t, "behind")
+	s.connHeader = rapid.SampledFrom([]string{"", "", "", "keep-alive", "close", "keep-alive, , x-drop", "a,,b", ", close", "close, ", "x-one,\tx-two", " keep-alive ,x-drop ", ",", ""}).Draw(t, "requestConnectionHeader")
 	s.early = rapid.SampledFrom([]int{0, 0, 0, 1, 2}).Draw(t, "earlyHints")
 	if s.status != 204 && s.status != 304 {
 		var n int
@@ -248,7 +257,7 @@ func (s *respScript) String() string {
 	if len(hs) > 300 {
 		hs = hs[:300] + fmt.Sprintf("...(%d headers)", len(s.headers))
 	}
-	return fmt.Sprintf("status=%d headers=%s body=%dB chunked=%v chunks=%d flushes=%d fault=%q cutAfter=%d defaultTransport=%v retarget=%v behind=%q early-hints=%d", s.status, hs, len(s.body), s.chunked, len(s.chunks), s.flushes, s.fault, s.cutAfter, s.defaultTransport, s.retarget, s.behind, s.early)
+	return fmt.Sprintf("status=%d headers=%s body=%dB chunked=%v chunks=%d flushes=%d fault=%q cutAfter=%d defaultTransport=%v retarget=%v behind=%q early-hints=%d request-connection=%q", s.status, hs, len(s.body), s.chunked, len(s.chunks), s.flushes, s.fault, s.cutAfter, s.defaultTransport, s.retarget, s.behind, s.early, s.connHeader)
 }
 
 func headerValues(h [][2]string) map[string][]string {
@@ -321,6 +330,9 @@ func exchange(fatalf func(string, ...any), s *respScript, method string) {
 	if method == "POST" {
 		req.Header.Set("Content-Type", "application/x-www-form-urlencoded")
 	}
+	if s.connHeader != "" {
+		req.Header.Set("Connection", s.connHeader)
+	}
 	if method == "CONNECT" { // the authority form of a tunnel request is not a URI
 		req.RequestURI = "127.0.0.1:8443"
 	}
@@ -339,9 +351,10 @@ func exchange(fatalf func(string, ...any), s *respScript, method string) {
 	if s.fault != "" && s.behind == "buffer-verbose" {
 		s.behind = "stream-verbose" // a buffer holds the response back: what the client sees of an aborted exchange is its business (C15/C20)
 	}
+	var traceSink bytes.Buffer
 	switch s.behind {
 	case "trace":
-		tr, err := trace.New(h, io.Discard)
+		tr, err := trace.New(h, &traceSink)
 		if err != nil {
 			fatalf("trace.New: %v", err)
 			return
@@ -405,10 +418,15 @@ func exchange(fatalf func(string, ...any), s *respScript, method string) {
 		cancel()
 	}
 	var panicked any
+	limit := 30 * time.Second
+	if exchangeStalled.Load() {
+		limit = 2 * time.Second // a stall was seen in this process already: shrinking re-runs variants of it
+	}
 	select {
 	case panicked = <-done:
-	case <-time.After(30 * time.Second):
-		fatalf("the exchange did not terminate within 30 s (%s, %s)", s, method)
+	case <-time.After(limit):
+		exchangeStalled.Store(true)
+		fatalf("the exchange did not terminate within %v (%s, %s)", limit, s, method)
 		return
 	}
 	bad := func(f string, a ...any) {
@@ -419,6 +437,21 @@ func exchange(fatalf func(string, ...any), s *respScript, method string) {
 	}
 	if panicked != nil && panicked != http.ErrAbortHandler {
 		bad("the proxy panicked with %v", panicked)
+	}
+	if s.behind == "trace" && panicked == nil {
+		// what a recording layer in front of the forwarder notes as the outcome is the status the
+		// exchange ended with (499 for a client that went away, whatever the backend sent otherwise)
+		var record struct {
+			Response struct {
+				Code int `json:"code"`
+			} `json:"response"`
+		}
+		line := traceSink.Bytes()
+		if err := json.Unmarshal(bytes.TrimSpace(line), &record); err != nil {
+			bad("the trace layer in front of the forwarder wrote %q for this exchange: %v", line, err)
+		} else if record.Response.Code != rec.Status() {
+			bad("the exchange ended with status %d, the recording layer in front of the forwarder (trace) noted %d", rec.Status(), record.Response.Code)
+		}
 	}
 	switch s.fault {
 	case "":
@@ -981,6 +1014,7 @@ func TestC16_StreamHead(t *testing.T) {
 		rec := sim.NewRecorder()
 		req := httptest.NewRequest("GET", "http://front.example/events", nil)
 		req.URL = target
+		holds0 := be.HoldsEntered()
 		done := make(chan any, 1)
 		go func() {
 			defer func() { done <- recover() }()
@@ -997,11 +1031,25 @@ func TestC16_StreamHead(t *testing.T) {
 				time.Sleep(200 * time.Microsecond)
 			}
 		}
+		// the backend is let go only once it has arrived at its pause (a release issued earlier
+		// would be lost on it and the exchange would hang in the harness, not in the proxy)
+		atPause := func(k int) {
+			deadline := time.Now().Add(20 * time.Second)
+			for be.HoldsEntered() < holds0+k {
+				if time.Now().After(deadline) {
+					be.Release()
+					t.Fatalf("INFRA: the scripted backend did not arrive at pause %d", k)
+				}
+				time.Sleep(100 * time.Microsecond)
+			}
+		}
 		waitFor("the response head", func() bool {
 			return rec.HeaderCallCount() > 0 && rec.Status() == status && rec.SentHeader().Get("X-Stream") == "yes" && rec.FlushCount() > 0
 		})
+		atPause(1)
 		be.Release()
 		waitFor("the first piece of the body", func() bool { return string(rec.Body()) == first })
+		atPause(2)
 		be.Release()
 		select {
 		case p := <-done:
